@@ -620,7 +620,7 @@ func (server *Server) registerCoreExecutors() {
 		members := []*ZSetMember{}
 		member, err := args.NextString()
 		if err != nil {
-			err = newMissingArgumentError(cmd, "member", err)
+			return nil, newMissingArgumentError(cmd, "member", err)
 		}
 		for err == nil {
 			members = append(members, &ZSetMember{Score: score, Member: member})
@@ -630,7 +630,7 @@ func (server *Server) registerCoreExecutors() {
 			}
 			member, err = nextStringArgument(cmd, "member", args)
 			if err != nil {
-				break
+				return nil, err
 			}
 		}
 		if !errors.Is(err, proto.ErrEOM) {
